@@ -45,6 +45,52 @@ def main(tier, seed, replay=None, pid='C02'):
     return ck.finish(search=tracecheck.crash_search(ck, pid))
 
 
+def _pick_pack(ck, tier):
+    """differential: Container._get_pack_id_to_write_to vs PickPack.pick (extracted) on planted pack files"""
+    import os
+    import shutil
+    import subprocess
+    import common
+    common.use_repo()
+    from disk_objectstore import Container
+    rnd = ck.rng
+    root = common.scratch_root()
+    lines, got = [], []
+    try:
+        for case in range(150 if tier == 'quick' else 1500):
+            target = rnd.choice([1, 10, 50, 300])
+            n = rnd.randint(0, 5)
+            sizes = [rnd.choice([target, target + rnd.randint(0, 20)]) for _ in range(max(0, n - 1))] + ([rnd.choice([0, target - 1, target, target + 5])] if n else [])
+            if rnd.random() < 0.15 and n > 1:
+                sizes[rnd.randrange(n - 1)] = max(0, target - 1)   # a hole in the layout: outside the theorem, still compared
+            d = os.path.join(root, f'c{case}')
+            c = Container(d)
+            c.init_container(clear=True, pack_size_target=target)
+            for i, sz in enumerate(sizes):
+                with open(os.path.join(d, 'packs', str(i)), 'wb') as f:
+                    f.write(b'x' * sz)
+            cached = rnd.randint(0, n)
+            c._current_pack_id = cached if rnd.random() < 0.8 else None
+            start = c._current_pack_id or 0
+            known = None
+            if rnd.random() < 0.5 and n:
+                kid = min(start, n - 1)
+                known = (kid, sizes[kid] + rnd.choice([0, 1, target, 2 * target]))
+            r = c._get_pack_id_to_write_to({known[0]: known[1]} if known else None)
+            c.close()
+            shutil.rmtree(d, ignore_errors=True)
+            lines.append(f"pick {target} {start} | {','.join(map(str, sizes))} | {f'{known[0]}:{known[1]}' if known else '-'}")
+            got.append(str(r))
+            ck.count(('pick', target, tuple(sizes), start, known), nontrivial=n > 0)
+        out = subprocess.run([os.path.join(common.OCAML, 'driver')], input='\n'.join(lines) + '\n', capture_output=True, text=True, timeout=300).stdout.splitlines()
+        bad = [(l, g, m) for l, g, m in zip(lines, got, out) if g != m]
+        ck.obligation('correspondence: Container._get_pack_id_to_write_to == PickPack.pick (extracted) on planted pack files, cached ids, known_sizes',
+                      not bad and len(out) == len(lines), str(bad[:3]), kind='correspondence')
+        ck.sample({'pick_case': lines[0], 'result': got[0]})
+    finally:
+        shutil.rmtree(root, ignore_errors=True)
+
+
 def _traces(names):
     def f(ck, tier):
         import scen
@@ -58,4 +104,4 @@ import tracecheck  # noqa: E402
 
 EXTRA = {'C02': _traces(None), 'C03': _traces(None), 'C09': _traces(['add_dup', 'topack', 'topack_nh', 'topack_nh_rt0', 'topack_multi', 'import_same']),
          'C10': _traces(['pack_clean', 'pack_auto', 'repack', 'repack_keep']), 'C11': _traces(['delete', 'repack', 'repack_keep']),
-         'C13': _traces(tracecheck.NOREPACK_SCENARIOS), 'C14': _traces(['import_same', 'import_diff', 'import_same_stream', 'import_diff_stream'])}
+         'C13': (lambda ck, tier: (_traces(tracecheck.NOREPACK_SCENARIOS)(ck, tier), _pick_pack(ck, tier))), 'C14': _traces(['import_same', 'import_diff', 'import_same_stream', 'import_diff_stream'])}
